@@ -340,15 +340,15 @@ fn arr<const A: usize>(t: &[u32]) -> [u32; A] {
 }
 
 pub fn new_market(assets: usize, levels: usize, t: u64, ticks: &[u32], trading: bool) -> Box<dyn Mkt> {
-    dispatch_al!(assets, levels, [1, 2, 3, 4], [1, 3, 10, 24], |AA, LL| Box::new(Market::<AA, LL>::new(t, arr::<AA>(ticks), trading)))
+    dispatch_al!(assets, levels, [1, 2, 3, 4, 12], [1, 3, 10, 24], |AA, LL| Box::new(Market::<AA, LL>::new(t, arr::<AA>(ticks), trading)))
 }
 pub fn market_from_json(assets: usize, levels: usize, s: &str) -> Result<Box<dyn Mkt>, String> {
-    dispatch_al!(assets, levels, [1, 2, 3, 4], [1, 3, 10, 24], |AA, LL| serde_json::from_str::<Market<AA, LL>>(s)
+    dispatch_al!(assets, levels, [1, 2, 3, 4, 12], [1, 3, 10, 24], |AA, LL| serde_json::from_str::<Market<AA, LL>>(s)
         .map(|b| Box::new(b) as Box<dyn Mkt>)
         .map_err(|e| e.to_string()))
 }
 pub fn market_load(assets: usize, levels: usize, path: &str) -> Result<Box<dyn Mkt>, String> {
-    dispatch_al!(assets, levels, [1, 2, 3, 4], [1, 3, 10, 24], |AA, LL| Market::<AA, LL>::load_json(path)
+    dispatch_al!(assets, levels, [1, 2, 3, 4, 12], [1, 3, 10, 24], |AA, LL| Market::<AA, LL>::load_json(path)
         .map(|b| Box::new(b) as Box<dyn Mkt>)
         .map_err(|e| e.to_string()))
 }
@@ -540,7 +540,7 @@ impl<const A: usize, const L: usize> EnvLike for MarketEnv<A, L> {
 
 pub fn new_env(market: bool, assets: usize, levels: usize, t: u64, ticks: &[u32], step: u64, trading: bool) -> Box<dyn EnvLike> {
     if market {
-        dispatch_al!(assets, levels, [1, 2, 3, 4], [1, 3, 10], |AA, LL| Box::new(MarketEnv::<AA, LL>::new(t, arr::<AA>(ticks), step, trading)))
+        dispatch_al!(assets, levels, [1, 2, 3, 4, 12], [1, 3, 10], |AA, LL| Box::new(MarketEnv::<AA, LL>::new(t, arr::<AA>(ticks), step, trading)))
     } else {
         dispatch_l!(levels, [1, 2, 3, 5, 10, 16, 24], |LL| Box::new(Env::<LL>::new(t, ticks[0], step, trading)))
     }
